@@ -134,7 +134,8 @@ class BeartypeValidatorBinaryABC(BeartypeValidator, metaclass=ABCMeta):
             validator_repr='(',
             indent_level_outer=indent_level_outer,
             indent_level_inner=indent_level_inner,
-            is_obj_valid=self.is_valid(obj),
+            is_obj_valid=self._is_valid_unless_shortcircuited_raises(
+                obj=obj, is_shortcircuited=is_shortcircuited),
         )
 
         # Line diagnosing this object against this first child validator, with
